@@ -230,6 +230,35 @@ pub proof fn lemma_even_sign(i: int)
     }
 }
 
+
+/// value truncated toward zero: trunc(i * 10^-s)
+pub open spec fn dec_trunc(i: int, s: int) -> int {
+    if s <= 0 { i * pow10(-s) } else { tdiv(i, pow10(s)) }
+}
+pub proof fn lemma_trunc_zero(s: int) ensures dec_trunc(0, s) == 0
+{
+    lemma_pow10_pos(s);
+    if s > 0 { assert(0int / pow10(s) == 0) by { lemma_div_basics(pow10(s)); } } else { assert(0 * pow10(-s) == 0); }
+}
+/// truncated remainder is zero exactly when the (euclidean) remainder is
+pub proof fn lemma_trem_zero_iff(a: int, b: int)
+    requires b > 0
+    ensures trem(a, b) == 0 <==> a % b == 0
+{
+    lemma_fundamental_div_mod(a, b);
+    lemma_trem_props(a, b);
+    if a >= 0 { assert(trem(a, b) == a - b * (a / b)); }
+    else {
+        let q = (-a) / b; let r = (-a) % b;
+        lemma_fundamental_div_mod(-a, b);
+        assert(tdiv(a, b) == -q);
+        assert(b * (-q) == -(b * q)) by (nonlinear_arith);
+        assert(trem(a, b) == -r);
+        if r == 0 { assert(a == b * (-q)); lemma_fundamental_div_mod_converse(a, b, -q, 0); }
+        if a % b == 0 { let d = a / b; assert(a == b * d); assert(-a == b * (-d)) by (nonlinear_arith) requires a == b * d; lemma_fundamental_div_mod_converse(-a, b, -d, 0); }
+    }
+}
+
 /// every shape a multiplication result takes in the crate: exact product, an operand (or anything equal
 /// to it, e.g. its normalized form) when the other operand equals one, zero when an operand is zero
 pub broadcast proof fn b_mul_cases(ri: int, rs: int, ai: int, a_s: int, bi: int, bs: int)
